@@ -360,12 +360,19 @@ def execute(record):
                             ret = model.fit_predict(X, A)
                         else:
                             model.fit(X, A)
-                    elif kind == "predict":
-                        model.predict(X)
-                    elif kind == "predict_proba":
-                        model.predict_proba(X)
-                    elif kind == "score":
-                        model.score(X, A)
+                    elif kind in ("predict", "predict_proba", "score"):
+                        # read-only calls: the same call twice gives the same answer and leaves the fitted state untouched
+                        before = fitted_state(model)
+                        call = {"predict": lambda: model.predict(X), "predict_proba": lambda: model.predict_proba(X),
+                                "score": lambda: model.score(X, A)}[kind]
+                        r1 = call()
+                        r2 = call()
+                        if not equivalent(np.asarray(r1), np.asarray(r2)):
+                            res.violate(f"C12:history_dependence:{kind}:repeated_call_differs", {"history": done})
+                        dchg = first_difference(before, fitted_state(model))
+                        if dchg is not None:
+                            res.violate(f"C12:history_dependence:{kind}:modified_fitted_state", {"attr": dchg, "history": done})
+                        res.probe("read_only_calls_checked")
                     elif kind == "set_params":
                         name, val = op["change"]
                         model.set_params(**{name: val})
